@@ -6,19 +6,40 @@ import numpy as np
 
 from vlib import repo
 from vlib.meshmodel import Model, Box, ONE, S
+from vlib.geo import MIXED
 
 MAX_LEVEL = 30     # bisection depth per axis in generated histories (element sizes down to 2^-30 of a root)
 CURVES = ['UnitSquare', 'PiSquare', 'LShape', 'Circle', 'UnitInterval']
 _curve_cache = {}
 
 
+def mixed_curve(P, name):
+    """a PiecewiseParametrization of straight pieces (the repository's `line`) and circular arcs"""
+    pieces = MIXED[name]
+    pw_start = [0.0]
+    pw_gamma = []
+    for pc in pieces:
+        s0 = pw_start[-1]
+        if pc['kind'] == 'line':
+            fun, _ = P.line(np.array(pc['p0']), np.array(pc['p1']), x_start=s0)
+        else:
+            def fun(x_hat, pc=pc, s0=s0):
+                th = pc['th0'] + pc['sgn'] * (np.asarray(x_hat, dtype=float) - s0) / pc['r']
+                return np.vstack([pc['c'][0] + pc['r'] * np.cos(th), pc['c'][1] + pc['r'] * np.sin(th)])
+        pw_gamma.append(fun)
+        pw_start.append(s0 + pc['len'])
+    return P.PiecewiseParametrization(pw_start, pw_gamma, closed=True)
+
+
 def curve(name):
-    """name of a shipped curve, or {'poly': [[x, y], ...], 'closed': bool} for a rectilinear polygon/polyline"""
+    """name of a shipped curve, a line/arc curve of geo.MIXED, or {'poly': [[x, y], ...], 'closed': bool} for a rectilinear polygon/polyline"""
     key = name if isinstance(name, str) else repr(name)
     if key not in _curve_cache:
         from src import parametrization as P
         with repo.quiet():
-            if isinstance(name, str):
+            if isinstance(name, str) and name in MIXED:
+                _curve_cache[key] = mixed_curve(P, name)
+            elif isinstance(name, str):
                 _curve_cache[key] = getattr(P, name)()
             else:
                 vs = [np.array([float(x), float(y)]) for x, y in name['poly']]
